@@ -108,16 +108,23 @@ func Try(a app.App, ctx app.IOContext) (err error) {
 		var (
 			catchErr error
 			handlers []app.Scope
+			failures []error
 		)
 		defer parentScope.DoneTask()
 		catchErr = separatedScope.Wait()
 		// Every handler runs in a scope of its own (like the body): a failing handler must not
-		// cancel the other one. Their errors reach the surrounding scope when all of them finished.
+		// cancel the other one. Their errors (and the error of a handler that could not be started)
+		// reach the surrounding scope when all started handlers have finished.
 		defer func() {
 			for _, handlerScope := range handlers {
 				if handlerErr := handlerScope.Wait(); handlerErr != nil {
-					parentScope.AppendError(handlerErr)
+					failures = append(failures, handlerErr)
 				}
+			}
+			// not before every started handler has finished: an error in the surrounding scope
+			// makes the submissions of a handler that is still running fail
+			for _, failure := range failures {
+				parentScope.AppendError(failure)
 			}
 		}()
 		runHandler := func(name, body, description string) (err error) {
@@ -149,21 +156,21 @@ func Try(a app.App, ctx app.IOContext) (err error) {
 		// run finally
 		if deps.FinallyBody != "" {
 			if err = runHandler("finally", deps.FinallyBody, ""); err != nil {
-				parentScope.AppendError(err)
+				failures = append(failures, err)
 				return
 			}
 		}
 		// run fail (if required)
 		if deps.FailBody != "" && catchErr != nil {
 			if err = runHandler("fail", deps.FailBody, catchErr.Error()); err != nil {
-				parentScope.AppendError(err)
+				failures = append(failures, err)
 				return
 			}
 		}
 		// run success (if required)
 		if deps.SuccessBody != "" && catchErr == nil {
 			if err = runHandler("success", deps.SuccessBody, ""); err != nil {
-				parentScope.AppendError(err)
+				failures = append(failures, err)
 				return
 			}
 		}
